@@ -21,6 +21,7 @@ from sa.report import AnalysisError
 from sa.types import FCtx, Types, walk_own
 
 TREE_FIELDS = ("self._spTree", "self._element", "self._grpSp")
+INSERT_WRAPPERS = set()   # methods of the element classes that only wrap insert_element_before (found per run)
 
 
 def _is_insert(n, helpers):
@@ -32,7 +33,7 @@ def _is_insert(n, helpers):
     # a local standing for the tree (`spTree = self._spTree`), whatever it is called
     names = {raw, _ALIAS_OF.get(id(n.func.value), raw)}
     a = n.func.attr
-    if names & set(TREE_FIELDS) and (a.startswith("add_") or a in ("insert_element_before", "append", "insert")):
+    if names & set(TREE_FIELDS) and (a.startswith("add_") or a in ("insert_element_before", "append", "insert") or a in INSERT_WRAPPERS):
         return True
     if raw == "self" and a in helpers:
         return True
@@ -206,6 +207,14 @@ def run(ctx):
     # methods of the group collection every path of which recalculates (e.g. a factory override that recalculates first):
     # resolved in the MRO of the concrete class whose hook is not a no-op
     MUST_RECALC.clear()
+    INSERT_WRAPPERS.clear()
+    try:
+        from checks.c10 import load as _load17
+        from checks.c10_sites import insertion_wrappers as _iw17
+
+        INSERT_WRAPPERS.update(_iw17(prog, _load17(ctx.repo)[2]))
+    except AnalysisError:
+        raise
     gs0 = st.classes.get("GroupShapes")
     HOOKS.clear()
     HOOKS.add("_recalculate_extents")
